@@ -10,7 +10,7 @@ open AikenVerif
 def dispatch (sub : String) (args : List String) : String :=
   match sub with
   | "names" => Drivers.Names.handle args
-  | "schema" | "schemaraw" | "validate" | "vraw" | "inhabits" | "encode" | "tag" | "apply" =>
+  | "schema" | "schemaraw" | "validate" | "vraw" | "inhabits" | "encode" | "tag" | "apply" | "applyp" =>
     Drivers.Schema.handle sub args
   | _ => "unknown-subcommand"
 
